@@ -306,6 +306,28 @@ CLAIMED = {
         technique="contract-based deductive verification with ghost state and an event trace + structural AST "
                   "obligations + AST declaration check",
     ),
+    'C34': dict(
+        category='proof', engine='cvc+pyvc',
+        text="Python side (pyvc): Parser._declare and Parser._add_constants are decided by an exhaustive case split (new / "
+             "identical / same object with other qualifiers / another object, x override x included): the name denotes "
+             "the very object given with the qualifiers given, other declarations are untouched, an included object is "
+             "marked as such, a conflicting redeclaration raises FFIError and replaces nothing. Parser.include, run on an "
+             "included parser with one entry of every kind word that the real cparser.py ever declares (collected from "
+             "its AST on every run), shares exactly the struct / union / enum / anonymous / typedef entries as the same "
+             "objects, skips anonymous enums, functions, variables, constants and macros, and adds every integer "
+             "constant with its value. Compiled side (cvc): _fetch_external_struct_or_union returns what an included "
+             "module's OWN builder realizes for its entry of the same name and kind that is not itself external -- "
+             "through any depth of includes (own contract at the recursive call), NULL without an exception when "
+             "nothing is found, RuntimeError beyond depth 100.",
+        design_ref='DESIGN.md section 4 C34',
+        note=COMMON_NOTE + "Known finding C34-enum-not-shared: compiled modules build their own ctype for an enum of an "
+             "included FFI (structural obligation on the _CFFI_OP_ENUM branch fails; replayed on every run). Recorded, not "
+             "specified: _realize_c_struct_or_union; search_in_struct_unions through a weaker restatement of its C25 "
+             "contract. Not under contract: make_included_tuples, lib_build_and_cache_attr's delegation loop, "
+             "ffi_fetch_int_constant, the recompiler's emission of _CFFI_F_EXTERNAL, model.global_cache.",
+        technique="contract-based deductive verification: exhaustive case contracts on the Python functions (pyvc), the C "
+                  "lookup through include chains over a trace of recorded realizations (cvc), structural AST obligations",
+    ),
     'C37': dict(
         category='proof', engine='cvc+pyvc',
         text="State-machine invariant by contracts: the library handle (dl_handle / l_libhandle) is written only by "
